@@ -49,7 +49,13 @@ pub open spec fn lp_enum_ref(m: Map<usize, F64>, h: Seq<(&usize, &F64)>) -> bool
         ensures r == (self.columns.len() == 0 && self.rows.len() == 0 && self.values.len() == 0 && (self.linear is None || (self.linear->Some_0.terms.len() == 0 && self.linear->Some_0.constant@ == XR::Fin(0real))))
     { unimplemented!() }
 }
-''', 'assumed callee contract (Quadratic::is_zero)')
+impl Zero for Linear {
+    #[verifier::external_body] fn zero() -> Self { unimplemented!() }
+    // Zero::is_zero for Linear (linear.rs; verified in C02 with this contract)
+    #[verifier::external_body] fn is_zero(&self) -> (r: bool) ensures r == (self.terms.len() == 0 && self.constant@ == XR::Fin(0real)) { unimplemented!() }
+}
+''', 'callee contracts: Quadratic::is_zero (assumed), Linear::is_zero (C02)')
+    asm.stubs.append(dict(unit='Zero::is_zero for Linear', proved_in='C02'))
     asm.stubs.append(dict(unit='Zero::is_zero for Quadratic', proved_in='assumed (closure over Option::is_none_or; the same text is assumed in C02); exercised by the bounded stand-in'))
     for u in (qplib.to_quadratic(), qplib.to_linear(), qplib.wrap_function(), qplib.convert_sense(), qplib.convert_dvars(), qplib.convert_objective()):
         asm.unit(u)
